@@ -71,8 +71,8 @@ def _lib():
             cts={
                 "text": ContentType("text", "plain", {"charset": "utf8"}),
                 "bin": ContentType("application", "octet-stream"),
-                # parameter value with space, quote, backslash, semicolon, '=' and non-ASCII: must survive the wire
-                "par": ContentType("text", "x-t", {"a": 'b "c" \\d; e=f \u00e9', "k": "v"}),
+                # parameter value with space, quote, backslash, semicolon, '=', comma and non-ASCII: must survive the wire
+                "par": ContentType("text", "x-t", {"a": 'b "c" \\d; e=f, g \u00e9', "k": "v"}),
                 "binp": ContentType("application", "x-bin", {"n": "1"}),
                 "tb": ContentType("text", "x-traceback", {"language": "python", "charset": "utf8"}),
             },
